@@ -7,7 +7,7 @@ import os
 import vcheck as V
 from c10 import show
 
-DB_SPECS = V.PURE_SPECS + ["Database.tla", "TraceDB.tla", "TraceDB.cfg"]
+DB_SPECS = V.PURE_SPECS + ["Database.tla", "Oplog.tla", "TraceDB.tla", "TraceDB.cfg"]
 
 # which observation classes decide which property
 CLASSES = {
@@ -91,6 +91,11 @@ def judge(c, prop, bads, lines, recs):
         if not what.startswith(prefixes):
             continue
         e = json.loads(lines[b["l"] - 1])
+        if e.get("fn") == "clean":
+            c.violation(what, "%s: %s removed %d of %d events (ages %s s, minSize=%d maxSize=%d minAge=%ds maxAge=%ds); the property demands %s" % (
+                what, "the engine's commit" if e.get("engine") else "Transaction.Clean", e["dropped"], e["len"], e["ages"], e["minSize"], e["maxSize"],
+                e["minAge"], e["maxAge"], b["exp"]), {"event": e, "spec": b})
+            continue
         txt = "%s: %s; state before: {%s}; result: %s; state after: {%s}" % (
             what, brief_call(e), brief_state(e["pre"]),
             ("error (%s)" % e["res"].get("msg", "")) if e["res"]["err"] else json.dumps({k: v for k, v in e["res"].items() if k in ("n", "count") and v}),
@@ -103,6 +108,10 @@ def cover(c, lines, nontrivial, stride=3):
         if i % stride:
             continue
         e = json.loads(line)
+        if e.get("fn") == "clean":
+            if i % 50 == 0:
+                nontrivial.add(("clean", e["len"], e["dropped"], e["minSize"], e["maxSize"]))
+            continue
         if e.get("fn") != "call":
             continue
         changed = e["pre"] != e["post"]
